@@ -77,6 +77,10 @@ type Scenario struct {
 	// Close the consumer calls; "collect" = the reducer stream.Collect, which must have closed everything
 	// by the time it returns (the C09 clause for the other owners reachable from here)
 	Owner string `json:"owner,omitempty"`
+	// kind "stress": a real-threads configuration (`stress mapiter <P> <B> <n> <rounds> [how]`, see stress_test.go)
+	// and how it was found
+	Stress string   `json:"stress,omitempty"`
+	Trace  []string `json:"trace,omitempty"`
 }
 
 func (sc *Scenario) key() string {
@@ -1502,6 +1506,10 @@ func TestVerif(t *testing.T) {
 			fmt.Println("cannot read replay:", err)
 			os.Exit(2)
 		}
+		if sc.Kind == "stress" {
+			replayStress(&sc)
+			return
+		}
 		o := runScenario(t, &sc, nil, 0)
 		fmt.Printf("replay of %s\n", sc.key())
 		for _, l := range o.Lines {
@@ -1677,4 +1685,6 @@ func TestVerif(t *testing.T) {
 		}
 		res.Case(sc.key(), nontrivial(sc, o), sample)
 	}
+	// real threads: MapIterator's check-then-park window (see stress_test.go)
+	stressMapIter(t, res, env)
 }
